@@ -3,12 +3,15 @@
  * these units replay natively.
  *   h_read_len       secp256k1_der_read_len           (static helper)
  *   h_parse_integer  secp256k1_der_parse_integer      (static helper)
- *   h_parse_der      secp256k1_ecdsa_signature_parse_der  (API, every pointer NULL or object)
+ *   h_parse_der      secp256k1_ecdsa_signature_parse_der  (API, every pointer NULL or object); the two calls of
+ *                    secp256k1_der_parse_integer are replaced by the contract proved in h_parse_integer
+ *   h_parse_der_full the same statement with nothing replaced (thorough tier)
  *   h_serialize_der  secp256k1_ecdsa_signature_serialize_der (API)
  *   h_rt_ser_parse   parse_der(serialize_der(r,s)) = (r,s)
  *   h_rt_parse_ser   serialize_der(parse_der(b)) = b whenever b is accepted with both integers in range */
 #include "assumed.h"
 #include "spec_der.h"
+#include "der_contracts.h"
 #include "c03_small_tables.h"
 #include "src/secp256k1.c"
 #include "post.h"
@@ -18,7 +21,6 @@
 #endif
 #define WIT 80
 
-static int eq32(const unsigned char *a, const unsigned char *b) { int i, d = 0; for (i = 0; i < 32; i++) d |= a[i] ^ b[i]; return d == 0; }
 
 void h_read_len(void) {
     INPUT(size_t, avail);
@@ -41,9 +43,10 @@ void h_read_len(void) {
 }
 
 void h_parse_integer(void) {
-    INPUT(size_t, avail); INPUT(secp256k1_scalar, r0);
+    INPUT(size_t, avail); INPUT(secp256k1_scalar, r0); INPUT(size_t, j);
     unsigned char *buf; const unsigned char *p; int ret; spec_int I; secp256k1_scalar r = r0; unsigned char rb[32];
-    __CPROVER_assume(avail <= MAXLEN);
+    __CPROVER_assume(avail <= MAXLEN && j < 32);
+    g_j = j;
     INPUT_BUF(b, buf, avail, WIT);
     p = buf;
     ret = secp256k1_der_parse_integer(&r, &p, buf + avail);
@@ -54,21 +57,21 @@ void h_parse_integer(void) {
     if (ret) {
         spec_scalar_be(&r, rb);
         __CPROVER_assert(p == buf + I.total, "C03 der.parse_integer: the read pointer advances by exactly the element length");
-        __CPROVER_assert(eq32(rb, I.v32), "C03 der.parse_integer: scalar equals the encoded value if 0 <= value < n, and is zero for negative, oversize or >= n values");
+        __CPROVER_assert(rb[j] == spec_der_int_vbyte(buf, I, j), "C03 der.parse_integer: scalar equals the encoded value if 0 <= value < n, and is zero for negative, oversize or >= n values");
         __CPROVER_assert(scalar_ok(&r), "C03 der.parse_integer: result scalar is reduced");
     }
-    if (ret && I.inrange && !spec_is_zero32(I.v32) && I.total == 35) REACH("parse_integer accepts a padded 32-byte in-range value");
+    __CPROVER_assert(PI_POST(ret, &r, p, (const unsigned char *)buf, I), "C03 der.parse_integer: the contract PI_POST used by der.sig_parse holds for the real function");
+    if (ret && I.inrange && I.total == 35 && buf[3] != 0) REACH("parse_integer accepts a padded 32-byte in-range value");
     if (ret && !I.inrange && I.total > 40) REACH("parse_integer accepts an oversize integer as zero");
-    if (ret && !I.inrange && I.total == 34) REACH("parse_integer accepts a 32-byte out-of-range value as zero");
     if (!ret && avail > 4 && buf[0] == 0x02 && buf[1] == 2) REACH("parse_integer rejects a padding violation");
 }
 
 /* API: every pointer argument NULL or an object with arbitrary content */
-void h_parse_der(void) {
+void h_parse_der_full(void) {
     secp256k1_context ctx;
-    INPUT(size_t, len); INPUT(secp256k1_ecdsa_signature, sig0); INPUT(_Bool, use_sig); INPUT(_Bool, use_in); INPUT(size_t, k);
+    INPUT(size_t, len); INPUT(secp256k1_ecdsa_signature, sig0); INPUT(_Bool, use_sig); INPUT(_Bool, use_in); INPUT(size_t, k); INPUT(size_t, j);
     unsigned char *buf; int ret; spec_sig S; secp256k1_ecdsa_signature sig = sig0; secp256k1_scalar r, s; unsigned char rb[32], sb[32];
-    __CPROVER_assume(len <= MAXLEN && k < 64);
+    __CPROVER_assume(len <= MAXLEN && k < 64 && j < 32);
     INPUT_BUF(b, buf, len, WIT);
     verif_ctx_init(&ctx);
     ret = secp256k1_ecdsa_signature_parse_der(&ctx, use_sig ? &sig : NULL, use_in ? buf : NULL, len);
@@ -83,13 +86,53 @@ void h_parse_der(void) {
         __CPROVER_assert(ret == S.ok, "C03 der.sig_parse: accepts exactly the strict-DER ECDSA-Sig-Value encodings that fill the input (no trailing bytes inside or after the sequence)");
         secp256k1_ecdsa_signature_load(&ctx, &r, &s, &sig);
         spec_scalar_be(&r, rb); spec_scalar_be(&s, sb);
-        if (ret && S.r_in && S.s_in) __CPROVER_assert(eq32(rb, S.r) && eq32(sb, S.s), "C03 der.sig_parse: in-range integers are stored exactly");
-        if (ret && !(S.r_in && S.s_in)) __CPROVER_assert(spec_is_zero32(rb) || spec_is_zero32(sb), "C03 der.sig_parse: an accepted signature with an out-of-range integer holds r = 0 or s = 0 (never verifies)");
+        if (ret && S.R.inrange && S.S.inrange) __CPROVER_assert(rb[j] == spec_der_sig_rbyte(buf, S, j) && sb[j] == spec_der_sig_sbyte(buf, S, j), "C03 der.sig_parse: in-range integers are stored exactly");
+        if (ret && !(S.R.inrange && S.S.inrange)) __CPROVER_assert(spec_is_zero32(rb) || spec_is_zero32(sb), "C03 der.sig_parse: an accepted signature with an out-of-range integer holds r = 0 or s = 0 (never verifies)");
         if (!ret) __CPROVER_assert(sig.data[k] == 0, "C03 der.sig_parse: a rejected input leaves the signature object all zero");
     }
-    if (use_sig && use_in && ret && S.r_in && S.s_in && !spec_is_zero32(S.r) && !spec_is_zero32(S.s) && len == 72) REACH("parse_der accepts a 72-byte signature");
-    if (use_sig && use_in && ret && !S.r_in && len > 200) REACH("parse_der accepts a long signature with oversize r");
+    if (use_sig && use_in && ret && S.R.inrange && S.S.inrange && len == 72) REACH("parse_der accepts a 72-byte signature");
+    if (use_sig && use_in && ret && !S.R.inrange && len > 200) REACH("parse_der accepts a long signature with oversize r");
     if (use_sig && use_in && !ret && len > 8 && buf[0] == 0x30) REACH("parse_der rejects");
+    if (!use_sig) REACH("parse_der NULL sig");
+}
+
+/* API-level statement over the proved contract of secp256k1_der_parse_integer (der_contracts.h):
+ * ECDSA-Sig-Value framing.  With R = slot 0 and S = slot 1 this is the definition of spec_der_sig. */
+void h_parse_der(void) {
+    secp256k1_context ctx;
+    INPUT(size_t, len); INPUT(secp256k1_ecdsa_signature, sig0); INPUT(_Bool, use_sig); INPUT(_Bool, use_in); INPUT(size_t, k); INPUT(size_t, j);
+    unsigned char *buf; int ret, framing, spec_ok; spec_len L; secp256k1_ecdsa_signature sig = sig0; secp256k1_scalar r, s;
+    __CPROVER_assume(len <= MAXLEN && k < 64 && j < 32);
+    g_j = j; g_pi_n = 0;
+    INPUT_BUF(b, buf, len, WIT);
+    verif_ctx_init(&ctx);
+    ret = secp256k1_ecdsa_signature_parse_der(&ctx, use_sig ? &sig : NULL, use_in ? buf : NULL, len);
+    WITNESS_BUF(b, buf, len, WIT);
+    L.ok = 0; L.hdr = 0; L.val = 0;
+    if (len >= 1) L = spec_der_len(buf + 1, len - 1);
+    /* X.690 8.9.1 + 10.1: identifier 0x30, DER length, contents are exactly the rest of the input */
+    framing = len >= 1 && buf[0] == 0x30 && L.ok && L.val == len - 1 - L.hdr;
+    __CPROVER_assert(ret == 0 || ret == 1, "C03 der.sig_parse: returns 0 or 1");
+    __CPROVER_assert(g_error == 0, "C03 der.sig_parse: error callback never invoked");
+    if (!use_sig || !use_in) {
+        __CPROVER_assert(ret == 0 && g_illegal == 1 && g_pi_n == 0, "C03 der.sig_parse: NULL argument reports illegal use and fails before reading anything");
+    } else {
+        __CPROVER_assert(g_illegal == 0, "C03 der.sig_parse: no callback for non-NULL arguments, whatever the bytes");
+        __CPROVER_assert(g_pi_n <= 2, "C03 der.sig_parse: at most two INTEGER elements are read");
+        if (framing) __CPROVER_assert(g_pi_n >= 1, "C03 der.sig_parse: a well-framed SEQUENCE has its first element read");
+        if (g_pi_n >= 1) __CPROVER_assert(framing && g_pi_p0 == buf + 1 + L.hdr && g_pi_av0 == L.val, "C03 der.sig_parse: r is read at the start of the SEQUENCE contents, limited to the SEQUENCE contents, and only if the framing is strict DER filling the input");
+        if (g_pi_n >= 1 && g_pi_I0.ok) __CPROVER_assert(g_pi_n == 2, "C03 der.sig_parse: after a well-formed r the second element is read");
+        if (g_pi_n == 2) __CPROVER_assert(g_pi_I0.ok && g_pi_p1 == g_pi_p0 + g_pi_I0.total && g_pi_av1 == g_pi_av0 - g_pi_I0.total, "C03 der.sig_parse: s is read directly after r, limited to the rest of the SEQUENCE contents");
+        spec_ok = framing && g_pi_n == 2 && g_pi_I0.ok && g_pi_I1.ok && g_pi_I0.total + g_pi_I1.total == L.val;
+        __CPROVER_assert(ret == spec_ok, "C03 der.sig_parse: accepts exactly the strict-DER ECDSA-Sig-Value encodings that fill the input (no trailing bytes inside or after the sequence)");
+        secp256k1_ecdsa_signature_load(&ctx, &r, &s, &sig);
+        if (ret && g_pi_I0.inrange && g_pi_I1.inrange) __CPROVER_assert(spec_scalar_byte(&r, j) == spec_der_int_vbyte(g_pi_p0, g_pi_I0, j) && spec_scalar_byte(&s, j) == spec_der_int_vbyte(g_pi_p1, g_pi_I1, j), "C03 der.sig_parse: in-range integers are stored exactly");
+        if (ret && !(g_pi_I0.inrange && g_pi_I1.inrange)) __CPROVER_assert(spec_scalar_is_zero(&r) || spec_scalar_is_zero(&s), "C03 der.sig_parse: an accepted signature with an out-of-range integer holds r = 0 or s = 0 (never verifies)");
+        if (!ret) __CPROVER_assert(sig.data[k] == 0, "C03 der.sig_parse: a rejected input leaves the signature object all zero");
+    }
+    if (use_sig && use_in && ret && g_pi_I0.inrange && g_pi_I1.inrange && len == 72) REACH("parse_der accepts a 72-byte signature");
+    if (use_sig && use_in && ret && !g_pi_I0.inrange && len > 200) REACH("parse_der accepts a long signature with oversize r");
+    if (use_sig && use_in && !ret && g_pi_n == 2 && g_pi_I1.ok) REACH("parse_der rejects trailing bytes inside the sequence");
     if (!use_sig) REACH("parse_der NULL sig");
 }
 
@@ -97,7 +140,7 @@ void h_serialize_der(void) {
     secp256k1_context ctx;
     INPUT(secp256k1_scalar, r); INPUT(secp256k1_scalar, s); INPUT(size_t, cap); INPUT(size_t, k);
     INPUT(_Bool, use_out); INPUT(_Bool, use_len); INPUT(_Bool, use_sig);
-    secp256k1_ecdsa_signature sig; unsigned char *out, old = 0, enc[72], rb[32], sb[32]; size_t outlen, needed; int ret;
+    secp256k1_ecdsa_signature sig; unsigned char *out, old = 0, rb[32], sb[32]; size_t outlen, needed; int ret;
     __CPROVER_assume(scalar_ok(&r) && scalar_ok(&s));     /* an initialized signature object holds reduced scalars */
     __CPROVER_assume(cap <= MAXLEN);
     secp256k1_ecdsa_signature_save(&sig, &r, &s);
@@ -107,7 +150,7 @@ void h_serialize_der(void) {
     verif_ctx_init(&ctx);
     ret = secp256k1_ecdsa_signature_serialize_der(&ctx, use_out ? out : NULL, use_len ? &outlen : NULL, use_sig ? &sig : NULL);
     spec_scalar_be(&r, rb); spec_scalar_be(&s, sb);
-    needed = spec_der_sig_enc(rb, sb, enc);
+    needed = spec_der_sig_enc_len(rb, sb);
     __CPROVER_assert(ret == 0 || ret == 1, "C03 der.serialize: returns 0 or 1");
     __CPROVER_assert(g_error == 0, "C03 der.serialize: error callback never invoked");
     if (!use_out || !use_len || !use_sig) {
@@ -117,7 +160,7 @@ void h_serialize_der(void) {
         __CPROVER_assert(outlen == needed, "C03 der.serialize: *outputlen is set to the length of the DER encoding, also when 0 is returned");
         __CPROVER_assert(ret == (cap >= needed), "C03 der.serialize: succeeds exactly when the buffer holds the encoding (not one byte more demanded)");
         if (!ret && k < cap) __CPROVER_assert(out[k] == old, "C03 der.serialize: a too-small buffer is left untouched");
-        if (ret && k < needed) __CPROVER_assert(out[k] == enc[k], "C03 der.serialize: output bytes equal the DER encoding SEQUENCE{INTEGER r, INTEGER s} with minimal lengths");
+        if (ret && k < needed) __CPROVER_assert(out[k] == spec_der_sig_enc_byte(rb, sb, k), "C03 der.serialize: output bytes equal the DER encoding SEQUENCE{INTEGER r, INTEGER s} with minimal lengths");
     }
     __CPROVER_assert(needed >= 8 && needed <= 72, "C03 der.serialize: encoding length between 8 and 72");
     if (use_out && use_len && use_sig && ret && needed == 72) REACH("serialize_der writes 72 bytes");
@@ -155,7 +198,7 @@ void h_rt_parse_ser(void) {
     ret = secp256k1_ecdsa_signature_parse_der(&ctx, &sig, buf, len);
     WITNESS_BUF(b, buf, len, WIT);
     S = spec_der_sig(buf, len);
-    if (ret && S.r_in && S.s_in) {
+    if (ret && S.R.inrange && S.S.inrange) {
         ret2 = secp256k1_ecdsa_signature_serialize_der(&ctx, out, &outlen, &sig);
         __CPROVER_assert(ret2 == 1 && outlen == len, "C03 der.roundtrip: re-serialization has the length of the accepted input");
         if (k < len) __CPROVER_assert(out[k] == buf[k], "C03 der.roundtrip: serialize(parse(b)) = b (the accepted encoding is the canonical one)");
